@@ -65,6 +65,18 @@ def programs(tier):
     P.append(("func", 'func mk(int x, int y) {\n    Entity l = place("small-lamp", x, y);\n    return l;\n}\nEntity a1 = mk(1, -5);\nEntity a2 = mk(3, -5);\n'
               'func row(int y) {\n    for i in 0..3 {\n        Entity q = place("inserter", i, y);\n    }\n    return 0;\n}\nSignal z1 = row(-8);\nSignal z2 = row(-9);\n',
               [("small-lamp", 1, -5, ()), ("small-lamp", 3, -5, ())] + [("inserter", i, y, ()) for y in (-8, -9) for i in range(3)]))
+    # round 5: every integer operator in a coordinate, a placing function called from a loop with iterator arguments,
+    # one Entity variable re-bound by consecutive statements
+    P.append(("arith-ops", 'int k = 3;\nEntity a1 = place("small-lamp", 2 ** k, 0 - (1 << k));\nEntity a2 = place("small-lamp", 17 / k, 0 - 17 % k - 1);\n'
+              'Entity a3 = place("small-lamp", 6 AND k, 0 - (6 OR 1));\nEntity a4 = place("inserter", 6 XOR k, 0 - (40 >> k));\nEntity a5 = place("inserter", (k + 1) * (k - 1), 0 - k * k - k);\n',
+              [("small-lamp", 8, -8, ()), ("small-lamp", 5, -3, ()), ("small-lamp", 2, -7, ()), ("inserter", 5, -5, ()), ("inserter", 8, -12, ())]))
+    P.append(("func-in-loop", 'func lamp_at(int x, int y) {\n    Entity l = place("small-lamp", x, y);\n    return 0;\n}\n'
+              'for i in 0..3 {\n    for j in [5, 9] {\n        Signal z = lamp_at(i * 2 + j, 0 - j - i);\n    }\n}\n',
+              [("small-lamp", i * 2 + j, -j - i, ()) for i in range(3) for j in (5, 9)]))
+    P.append(("rebinding", 'Entity e = place("small-lamp", 1, -5);\nEntity f = place("small-lamp", 3, -5);\nEntity g = place("inserter", 5, -5);\n'
+              'Entity h = place("small-lamp", 7, -5, {always_on: 1});\nEntity k = place("small-lamp", 7, -7, {always_on: 1});\n',
+              [("small-lamp", 1, -5, ()), ("small-lamp", 3, -5, ()), ("inserter", 5, -5, ()), ("small-lamp", 7, -5, (("always_on", 1),)),
+               ("small-lamp", 7, -7, (("always_on", 1),))]))
     big = [(500, 20), (501, 20)] + ([(1001, 40)] if tier == "thorough" else [])
     for n, w in big:
         P.append((f"grid-{n}", f'for i in 0..{n} {{\n    Entity l = place("small-lamp", i % {w}, 0 - (i / {w}) - 5);\n}}\n',
@@ -82,7 +94,7 @@ class C09(core.Check):
     level = "exploration"
     timeout = 900
     rule = ("place() with literal / int-variable / arithmetic / iterator / negative coordinates, 1x1, 1x2, 2x2 and 3x3 "
-            "prototypes, static properties, wired and unwired, inside loops, nested loops and functions, counts 1..120, "
+            "prototypes, every integer operator in a coordinate, static properties, wired and unwired, inside loops, nested loops, functions and functions called from loops, counts 1..120, "
             "500, 501 (decomposition threshold) and 521 (thorough 1001) x pole options x the layout-answer menu (bound 1); "
             "the multiset of (prototype, top-left tile, static properties) of user entities must equal the one computed "
             "from the program text; one case = (program, poles, answer); non-trivial = more than one entity expected")
